@@ -49,6 +49,7 @@ var gDeepOps = []string{"w1:insert 1", "w1:delete 1", "w1:insert 2", "w1:vacuum-
 type gFault struct {
 	Idx      int  // index among the vacuuming handle's requests during the vacuum
 	Applied  bool // the request takes effect, only the answer is an error
+	Desc     bool // vacuum deletes its objects in descending instead of ascending name order (hook H9)
 	AltFresh engine.Rows
 }
 
@@ -176,6 +177,11 @@ func gWorker(raw json.RawMessage) *engine.Result {
 					gRunSeq(res, c, ops, ci, &gFault{Idx: j, AltFresh: alt})
 					if rq.Op == "DELETE" || rq.Op == "PUT" {
 						gRunSeq(res, c, ops, ci, &gFault{Idx: j, Applied: true, AltFresh: alt})
+					}
+					if rq.Op == "DELETE" {
+						// the objects are deleted in map order in production: the opposite order as well
+						gRunSeq(res, c, ops, ci, &gFault{Idx: j, Desc: true, AltFresh: alt})
+						gRunSeq(res, c, ops, ci, &gFault{Idx: j, Desc: true, Applied: true, AltFresh: alt})
 					}
 				}
 			}
@@ -485,7 +491,9 @@ func gRunSeq(res *engine.Result, c gCase, ops []int, ci int, flt *gFault) (inter
 			}
 			return engine.FailBefore, engine.ErrTransport
 		}
+		w.DeleteDescending = flt.Desc
 		verr, err := w1.Vacuum(cut)
+		w.DeleteDescending = false
 		w1.H.Fault = nil
 		if fired == "" {
 			return nil, true
@@ -496,6 +504,9 @@ func gRunSeq(res *engine.Result, c gCase, ops []int, ci int, flt *gFault) (inter
 		how := "fails"
 		if flt.Applied {
 			how = "is carried out but answered with an error"
+		}
+		if flt.Desc {
+			how += " (objects deleted in descending name order)"
 		}
 		where += fmt.Sprintf("; request #%d of the vacuum (%s) %s; vacuum reported: %v %s", flt.Idx, fired, how, err, verr)
 		res.Outcomes = append(res.Outcomes, fmt.Sprintf("failed-vacuum-reported-error=%v", err != nil || verr != ""))
